@@ -137,6 +137,8 @@ class BytesLoop:
             x = fr.env["x"]
             if not isinstance(x, SBytes) or not isinstance(st.target, ast.Name):
                 raise Unsupported("bytes_to_int loop shape")
+            from pyvc.loops import require_declared
+            require_declared(st, fr, {"o", st.target.id}, self.name)
             o0 = fr.env["o"]
             path.prove(f"{self.name}/loop0/entry", ZAtom(zt(o0) == 0), kind="invariant", detail="o = OS2IP(empty) = 0")
             i = z3.Int(f"i!{next(path.fresh_id)}")
@@ -254,6 +256,22 @@ class JMulN:
                         for eps in itertools.product((1, -1, 0), repeat=len(quos)):
                             w = sum((e * q_ for e, q_ in zip(eps, quos)), z3.IntVal(0))
                             alts.append(ZAtom(yt * yt - (xt * xt * xt + 7) == P * w))
+                        # the code may test the residue on the root b it computed and then pass y = P - b: (P - b)^2 = b^2 + P (P - 2 b)
+                        # is a ring identity (checked below), so a witness for b is a witness for y
+                        ys = z3.simplify(yt)
+                        b_ = None
+                        if z3.is_add(ys) and len(ys.children()) == 2:
+                            c0, c1 = ys.children()
+                            for cst, oth in ((c0, c1), (c1, c0)):
+                                if z3.is_int_value(cst) and cst.as_long() == P and z3.is_mul(oth) and len(oth.children()) == 2 \
+                                        and z3.is_int_value(oth.children()[0]) and oth.children()[0].as_long() == -1:
+                                    b_ = oth.children()[1]
+                        if b_ is not None:
+                            ident = z3.simplify((P - b_) * (P - b_) - (b_ * b_ + P * (P - 2 * b_)), som=True)
+                            if z3.is_int_value(ident) and ident.as_long() == 0:
+                                for eps in itertools.product((1, -1, 0), repeat=len(quos)):
+                                    w = sum((e * q_ for e, q_ in zip(eps, quos)), z3.IntVal(0))
+                                    alts.append(ZAtom(z3.And(yt == P - b_, b_ * b_ - (xt * xt * xt + 7) == P * w)))
                         path.prove_any(f"{self.top}/call[jacobian_multiply]/requires.on-curve", alts, kind="requires",
                                        detail="lifted point satisfies y^2 = x^3 + 7 (mod P) (explicit witness from the code's own residue test)")
                         return GPtN({nm: KN(1)})
